@@ -29,22 +29,31 @@ theorem Reach.instr {P : Prims W} {code : Code} {vm vm1 vm2 : VM W} {i : Instr} 
   simp only [hc]
   rw [he]
 
+/-- a generator frame yields and is resumed by the consumer's next `next()` (fresh `Vm` registers) -/
+theorem Reach.yield {P : Prims W} {code : Code} {vm vm2 : VM W}
+    (hw : vm.why = .yield) (hr : Reach P code (resumeGen P vm) vm2) : Reach P code vm vm2 := by
+  refine Reach.step ?_ hr
+  unfold GPy.C02.step
+  rw [if_neg (by rw [hw]; decide), if_pos hw]
+
 /-- one iteration of the unwinding loop that pops a block and goes on -/
 theorem Reach.again {P : Prims W} {code : Code} {vm vm1 vm2 : VM W} {b : Block} {bs : List Block}
     (hw : vm.why ≠ .not) (hb : vm.blocks = b :: bs)
-    (hu : unwind1 vm b bs = .again vm1) (hr : Reach P code vm1 vm2) : Reach P code vm vm2 := by
+    (hu : unwind1 vm b bs = .again vm1) (hr : Reach P code vm1 vm2)
+    (hy : vm.why ≠ .yield := by first | assumption | decide | (intro hh; simp_all)) : Reach P code vm vm2 := by
   refine Reach.step ?_ hr
   unfold GPy.C02.step
-  rw [if_neg hw, hb]
+  rw [if_neg hw, if_neg hy, hb]
   simp only [hu]
 
 /-- one iteration of the unwinding loop in which the block takes the reason -/
 theorem Reach.resume {P : Prims W} {code : Code} {vm vm1 vm2 : VM W} {b : Block} {bs : List Block}
     (hw : vm.why ≠ .not) (hb : vm.blocks = b :: bs)
-    (hu : unwind1 vm b bs = .resume vm1) (hr : Reach P code vm1 vm2) : Reach P code vm vm2 := by
+    (hu : unwind1 vm b bs = .resume vm1) (hr : Reach P code vm1 vm2)
+    (hy : vm.why ≠ .yield := by first | assumption | decide | (intro hh; simp_all)) : Reach P code vm vm2 := by
   refine Reach.step ?_ hr
   unfold GPy.C02.step
-  rw [if_neg hw, hb]
+  rw [if_neg hw, if_neg hy, hb]
   simp only [hu]
 
 /-! ### code layout -/
@@ -102,6 +111,7 @@ theorem compS_length : ∀ (s : Stmt) (ctx : Ctx) (pc cur : Nat), (compS ctx pc 
   | pass => intros; rfl
   | ev => intros; rfl
   | ret => intros; rfl
+  | yieldS => intros; rfl
   | raise => intros; rfl
   | reraise => intros; rfl
   | raiseX ln fm => intro ctx pc cur; cases fm <;> rfl
@@ -170,7 +180,7 @@ theorem unwindBlock_junk (junk st : List Val) : unwindBlock st.length (junk ++ s
 
 /-- which statements the simulation proof covers (all of them: `Cov_all`) -/
 def Cov : Stmt → Bool
-  | .skip | .pass _ | .ev _ _ | .ret _ _ | .raise _ _ | .brk _ | .cont _ | .reraise _ | .raiseX _ _ => true
+  | .skip | .pass _ | .ev _ _ | .ret _ _ | .raise _ _ | .brk _ | .cont _ | .reraise _ | .raiseX _ _ | .yieldS _ _ => true
   | .seq a b => Cov a && Cov b
   | .ifS _ _ b o => Cov b && Cov o
   | .whileS _ _ b o => Cov b && Cov o
@@ -227,7 +237,7 @@ theorem callProbe_at {code : Code} {pc : Nat} {f : Fn} {i ln : Nat} {rest : Code
   exact ⟨h0, h1, h2, h3⟩
 
 theorem sim_simple (P : Prims W) (code : Code) (f : Nat) (s : Stmt)
-    (hs : match s with | .skip | .pass _ | .ev _ _ | .ret _ _ | .raise _ _ | .brk _ | .cont _ | .reraise _ | .raiseX _ _ => True | _ => False)
+    (hs : match s with | .skip | .pass _ | .ev _ _ | .ret _ _ | .raise _ _ | .brk _ | .cont _ | .reraise _ | .raiseX _ _ | .yieldS _ _ => True | _ => False)
     (w w' : W) (o : Outcome) (hd : Handled) (h : execT P (f+1) (.run s) w hd = some (w', o))
     (ctx : Ctx) (pc cur : Nat) (st : List Val) (bs : List Block) (rv : Val) (ex : ExcInfo) (hex : ex = hdInfo hd)
     (hce : compErr ctx pc s = none) (hc : CodeAt code pc (compS ctx pc cur s)) :
@@ -293,6 +303,40 @@ theorem sim_simple (P : Prims W) (code : Code) (f : Nat) (s : Stmt)
           vstep h3
           exact Reach.refl _
         · simp [Post]
+      | raise c =>
+        simp only [Option.some.injEq, Prod.mk.injEq] at h
+        obtain ⟨rfl, rfl⟩ := h
+        refine ⟨?_, ?_, ?_⟩
+        rotate_left
+        · vstep h0
+          vstep h1
+          vstepx [hev] h2
+          exact Reach.refl _
+        · simp [Post, raiseAt]
+  | yieldS ln i =>
+    simp only [compS, callProbe, List.cons_append, List.nil_append] at hc
+    obtain ⟨h0, h1, h2, hr⟩ := callProbe_at hc
+    have h3 := hr.nth 0 (by simp)
+    have h4 := hr.nth 1 (by simp)
+    unfold execT at h
+    simp only at h
+    cases hev : P.ev w i with
+    | mk w1 r =>
+      rw [hev] at h
+      cases r with
+      | val v =>
+        simp only [Option.some.injEq, Prod.mk.injEq] at h
+        obtain ⟨rfl, rfl⟩ := h
+        refine ⟨?_, ?_, ?_⟩
+        rotate_left
+        · vstep h0
+          vstep h1
+          vstepx [hev] h2
+          vstep h3
+          refine Reach.yield rfl ?_
+          refine Reach.instr rfl h4 (by simp only [exec, resumeGen]; rfl) ?_
+          exact Reach.refl _
+        · simp [Post, len]
       | raise c =>
         simp only [Option.some.injEq, Prod.mk.injEq] at h
         obtain ⟨rfl, rfl⟩ := h
@@ -655,7 +699,8 @@ theorem Post.saved {ctx : Ctx} {e : Nat} {st : List Val} {bs : List Block} {ex :
 /-- a pending reason pops an EXCEPT_HANDLER block: the three saved values and everything above go,
 and the handled exception is again the one that was saved when the handler was entered -/
 theorem handler_passes {P : Prims W} {code : Code} {pc : Nat} {junk st : List Val} {a b c : Val} {bs : List Block}
-    {why : Why} (hw : why ≠ .not) {rv : Val} {cur ex : ExcInfo} {w : W} :
+    {why : Why} (hw : why ≠ .not) {rv : Val} {cur ex : ExcInfo} {w : W}
+    (hy : why ≠ .yield := by first | assumption | decide | (intro hh; simp_all)) :
     Reach P code ⟨pc, junk ++ a :: b :: c :: st, ⟨.handler, -1, st.length⟩ :: bs, why, rv, cur, ex, w⟩
       ⟨pc, st, bs, why, rv, cur, savedOf a b c, w⟩ := by
   have he := unwindExceptHandler_junk junk a b c st
@@ -1966,6 +2011,7 @@ theorem sim_all (P : Prims W) (code : Code) : ∀ fuel, SimS P code fuel ∧ Sim
     | brk ln => exact sim_simple P code f _ trivial w w' o hd h ctx pc cur st bs rv ex hex hce hc
     | cont ln => exact sim_simple P code f _ trivial w w' o hd h ctx pc cur st bs rv ex hex hce hc
     | reraise ln => exact sim_simple P code f _ trivial w w' o hd h ctx pc cur st bs rv ex hex hce hc
+    | yieldS ln i => exact sim_simple P code f _ trivial w w' o hd h ctx pc cur st bs rv ex hex hce hc
     | raiseX ln fm => exact sim_simple P code f _ trivial w w' o hd h ctx pc cur st bs rv ex hex hce hc
     | seq a b => exact sim_seq P code f ihS a b w w' o hd h hcov ctx pc cur st bs rv ex hex hce hc hinv
     | ifS ln i b o' => exact sim_if P code f ihS ln i b o' w w' o hd h hcov ctx pc cur st bs rv ex hex hce hc hinv
@@ -2023,7 +2069,7 @@ theorem endsRet_not_normal (P : Prims W) : ∀ (s : Stmt) (prev : Bool) (f : Nat
           simp only at hx
           exact iha prev f w w1 hd (ihb _ f w1 w' hd h hx) ha
         | brk | cont | ret _ | exc _ _ => simp at hx
-  | ev | raise | reraise | raiseX | brk | cont | ifS | whileS | forS | tryF | tryE | withS => intro prev f w w' hd h _; simp [endsRet] at h
+  | ev | raise | reraise | raiseX | yieldS | brk | cont | ifS | whileS | forS | tryF | tryE | withS => intro prev f w w' hd h _; simp [endsRet] at h
 
 /-- what `RunFrame` must hand back for each way the function can end -/
 def expectedExit (fin : Final) (w' : W) : Exit W :=
@@ -2101,7 +2147,7 @@ theorem frame_correct_cov (P : Prims W) (defLine : Nat) (body : Stmt) (code : Co
 theorem Cov_all : ∀ s : Stmt, Cov s = true := by
   intro s
   induction s with
-  | skip | pass | ev | ret | raise | brk | cont | reraise | raiseX => rfl
+  | skip | pass | ev | ret | raise | brk | cont | reraise | raiseX | yieldS => rfl
   | seq a b iha ihb => simp [Cov, iha, ihb]
   | ifS ln i b o ihb iho => simp [Cov, ihb, iho]
   | whileS ln i b o ihb iho => simp [Cov, ihb, iho]
